@@ -157,3 +157,4 @@ for _f in sorted(_glob.glob(_os.path.join(_os.path.dirname(_os.path.abspath(__fi
 
 def task_import_errors(task):
     return IMPORT_ERRORS
+from tasks_synth import *  # noqa
